@@ -219,6 +219,9 @@ func (g *gen) genStatement(typ types.Type, this, that string) error {
 		if isNamed {
 			external := g.TypesMap.IsExternal(named)
 			fields := derive.Fields(g.TypesMap, strct, external)
+			if f := fields.Unwritable; f != nil {
+				return fmt.Errorf("unsupported field %s of %s: its type %s cannot be written outside of its package", f.DebugName(), g.TypeString(typ), f.Type)
+			}
 			if len(fields.Fields) == 0 {
 				p.P("return (%s == nil && %s == nil) || (%s != nil) && (%s != nil)", this, that, this, that)
 				return nil
